@@ -346,8 +346,8 @@ func extractOption(nodes map[string]*chanCall, opts ...Option) (map[string][]any
 					continue
 				}
 				if curNode.action.isPassthrough {
-					return nil, fmt.Errorf("option type[%s] is designated to the passthrough node[%s], which takes no option",
-						reflect.TypeOf(opt.options[0]).String(), path)
+					return nil, fmt.Errorf("option type[%v] is designated to the passthrough node[%s], which takes no option",
+						reflect.TypeOf(opt.options[0]), path)
 				}
 				if curNode.action.optionType == nil {
 					nOpt := opt.deepCopy()
@@ -356,8 +356,9 @@ func extractOption(nodes map[string]*chanCall, opts ...Option) (map[string][]any
 				} else {
 					// designate to component
 					if curNode.action.optionType != reflect.TypeOf(opt.options[0]) { // assume that types of options are the same
-						return nil, fmt.Errorf("option type[%s] is different from which the designated node[%s] expects[%s]",
-							reflect.TypeOf(opt.options[0]).String(), path, curNode.action.optionType.String())
+						// %v, not String(): the type of a nil option value is the nil type
+						return nil, fmt.Errorf("option type[%v] is different from which the designated node[%s] expects[%s]",
+							reflect.TypeOf(opt.options[0]), path, curNode.action.optionType.String())
 					}
 					optMap[curNodeKey] = append(optMap[curNodeKey], opt.options...)
 				}
